@@ -105,6 +105,16 @@ func ZipHazards() []ZipHazard {
 			addMember(a, ZMember{Name: "dup.bin", Data: []byte("first copy")})
 			addMember(a, ZMember{Name: "dup.bin", Data: []byte("second, different copy")})
 		}},
+		// payload members BELOW META-INF/ whose base names look like signature
+		// material (only the immediate children of META-INF/ are signature files)
+		{Name: "signature-like-names-below-meta-inf-subdirectories", Apply: func(a *ZArchive) {
+			addMember(a, ZMember{Name: "META-INF/versions/11/OSGI-INF/MANIFEST.MF", Data: []byte("Manifest-Version: 1.0\r\nBundle-Name: nested\r\n\r\n")})
+			addMember(a, ZMember{Name: "META-INF/licenses/bc/BC.SF", Data: []byte("not a signature file")})
+			addMember(a, ZMember{Name: "META-INF/licenses/bc/BC.RSA", Data: []byte("not a signature block")})
+			addMember(a, ZMember{Name: "META-INF/native/linux/SIG-check.so", Data: []byte("\x7fELF payload")})
+			addMember(a, ZMember{Name: "META-INF/services/x.EC", Data: []byte("service entry")})
+			addMember(a, ZMember{Name: "META-INF/maven/g/a/x.DSA", Data: []byte("maven metadata")})
+		}, Only: "jar,apk"},
 		{Name: "directory-entries", Apply: func(a *ZArchive) {
 			addMember(a, ZMember{Name: "d1/", Dir: true})
 			addMember(a, ZMember{Name: "d1/d2/", Dir: true})
